@@ -494,7 +494,24 @@ pub fn rate_oracle(o: &Outcome, s: &Scen) -> Option<(String, serde_json::Value)>
       }
     }
   }
-  if s.name == "buffer_with_time+workers" {
+  // buffers are never empty and never exceed the count limit
+  if let Kind::Pipe(c) = &s.kind {
+    let limit = c.ops.iter().find_map(|op| match op {
+      Op::BufferWithCountAndTime(n, _) => Some(*n),
+      Op::BufferWithTime(_) => Some(usize::MAX),
+      _ => None,
+    });
+    if let Some(limit) = limit {
+      for n in &out {
+        if let N::Next(V::L(l)) = n {
+          if l.is_empty() || l.len() > limit {
+            return Some(("bad_buffer_size".into(), json!({"why": format!("a buffer of {} items was emitted (limit {})", l.len(), if limit == usize::MAX { "none".to_string() } else { limit.to_string() })})));
+          }
+        }
+      }
+    }
+  }
+  if s.name == "buffer_with_time+workers" || s.name == "buffer_with_count_and_time+workers" {
     let unsub = o.evs.iter().any(|e| matches!(e.k, K::Mark("unsub_call", _)));
     let errored = s.threads.iter().flatten().any(|op| matches!(op, TOp::Error(_)));
     let completed = out.last() == Some(&N::Complete);
@@ -1322,6 +1339,19 @@ pub fn random_scen(r: &mut Rng, family: usize) -> Scen {
         worker_spins: 400,
       }
     }
+    24 | 25 => {
+      // more rate limiters whose timer tasks run on a worker thread
+      let (name, op): (&'static str, Op) = if family == 24 {
+        ("buffer_with_count_and_time+workers", Op::BufferWithCountAndTime(1 + r.below(3), 1))
+      } else {
+        ("sample(interval)+workers", Op::Sample(Box::new(Chain::new(Src::Interval(1), vec![]))))
+      };
+      let mut threads: Vec<Vec<TOp>> = (0..1 + r.below(2)).map(|_| script(r, 1, false, true, 4)).collect();
+      if r.chance(1, 3) {
+        threads.push(vec![TOp::Unsub(0)]);
+      }
+      Scen { name, kind: Kind::Pipe(Chain::new(Src::Hot(0), vec![op])), n_hot: 1, initial_subs: 1, threads, workers: 1, worker_spins: 150 }
+    }
     21 | 22 => {
       // one producer thread, one FIFO worker thread (a single-threaded pool on
       // its own thread): the scheduler-moving operators must keep the order
@@ -1369,7 +1399,7 @@ pub fn random_scen(r: &mut Rng, family: usize) -> Scen {
   }
 }
 
-pub const FAMILIES: usize = 24;
+pub const FAMILIES: usize = 26;
 
 pub fn strategy_for(r: &mut Rng) -> Strategy {
   match r.below(4) {
@@ -1752,7 +1782,7 @@ pub fn miri_main(cfg: &Cfg) {
     "C12" => vec![1],
     "C15" => vec![10],
     // worker families spin on the pool: under the interpreter they mostly hit the wall-clock watchdog
-    _ => (0..FAMILIES).filter(|f| !matches!(f, 12 | 13 | 15..=18 | 21..=23)).collect(),
+    _ => (0..FAMILIES).filter(|f| !matches!(f, 12 | 13 | 15..=18 | 21..=25)).collect(),
   };
   for i in 0..cfg.n(2, 3) {
     // every other scenario is the merge_all family (queued inners + unsubscribe: the richest lock graph)
